@@ -600,19 +600,21 @@ Proof.
     assert (Ha : active (w_mod w m) = true) by (rewrite (Hfr eq_refl); reflexivity).
     destruct HR as [HS|HD]; [|destruct HD as [_ [b1 _] _ _ _ _]; congruence].
     destruct (gen_facts w tr HG) as (Q1 & Q2 & _).
-    destruct (m_event 0 (start_cb sc 0 m) (start_cb sc' 0 m) w w' HS W (fun _ => Q2 Ha) (start_cb_ok _ _ _ _ _) (start_cb_ok _ _ _ _ _))
+    assert (Hok : CbOK m (start_cb sc 0 m)) by exact (start_cb_ok (nmods sc) (cfg sc m) 0 m 0).
+    assert (Hok' : CbOK m (start_cb sc' 0 m)) by exact (start_cb_ok (nmods sc') (cfg sc' m) 0 m 0).
+    destruct (m_event 0 (start_cb sc 0 m) (start_cb sc' 0 m) w w' HS W (fun _ => Q2 Ha) Hok Hok')
       as (R & Wa & Wb & T1 & T2).
     { unfold start_cb. apply at_sim_start0_post. split; [apply activate_agree, Same_agree, HS|reflexivity]. }
     constructor; cbn [fst snd]; [exact HG'|split; [exact R|split; assumption]|rewrite T1, T2; reflexivity|].
     rewrite !items_snoc, !others_app, Ho. cbn [e_items].
-    rewrite (others_own _ (around_own sc 0 m _ w (start_cb_ok _ _ _ _ _))), (others_own _ (around_own sc' 0 m _ w' (start_cb_ok _ _ _ _ _))). reflexivity.
+    rewrite (others_own _ (around_own sc 0 m _ w Hok)), (others_own _ (around_own sc' 0 m _ w' Hok')). reflexivity.
   - rewrite (cb_start i stage Hi). destruct HR as [HS|HD].
-    + destruct (same_other_event 0 i (start_cb sc stage i) w w' Hi HS (start_cb_ok _ _ _ _ _)) as (E1 & E2 & E3 & T1 & T2).
+    + destruct (same_other_event 0 i (start_cb sc stage i) w w' Hi HS (start_cb_ok (nmods sc) (cfg sc i) 0 i stage)) as (E1 & E2 & E3 & T1 & T2).
       { intros s s' H. unfold start_cb. apply at_sim_start_agree, H. }
       destruct (E3 W W') as [Wa Wb].
       constructor; cbn [fst snd]; [exact HG'|split; [left; exact E2|split; assumption]|rewrite T1, T2; exact Ht|].
       rewrite !items_snoc, !others_app, Ho. cbn [e_items]. rewrite E1. reflexivity.
-    + destruct (dead_other_event 0 i (start_cb sc stage i) w w' Hi HD (start_cb_ok _ _ _ _ _)) as (E1 & E2 & Wa & Wb & T1 & T2); try assumption.
+    + destruct (dead_other_event 0 i (start_cb sc stage i) w w' Hi HD (start_cb_ok (nmods sc) (cfg sc i) 0 i stage)) as (E1 & E2 & Wa & Wb & T1 & T2); try assumption.
       { intros s s' H. unfold start_cb. apply at_sim_start_agree, H. }
       constructor; cbn [fst snd]; [exact HG'|split; [right; exact E2|split; assumption]|rewrite T1, T2; exact Ht|].
       rewrite !items_snoc, !others_app, Ho. cbn [e_items]. rewrite E1. reflexivity.
